@@ -49,11 +49,11 @@ def gen_cases(rng, tier):
     def add(stream, src):
         cases.append({"id": len(cases), "stream": stream, "src": src})
     # stream 1: well-formed, ill-typed: every operator x operand kinds
-    n1 = 600 if tier == "quick" else 12000
+    n1 = 600 if tier == "quick" else 6000
     if tier == "thorough":
         for op in BIN + CMP:
             for a in names:
-                for b in rng.sample(names, 12):
+                for b in rng.sample(names, 6):
                     add("illtyped", "%s %s %s" % (ops[a], op, ops[b]))
     for _ in range(n1):
         a, b, c = (ops[rng.choice(names)] for _ in range(3))
@@ -95,7 +95,7 @@ def gen_cases(rng, tier):
                 add("boundary", "%s with %s" % (sq, m))
                 add("boundary", "%s without %s" % (sq, m))
                 add("boundary", "%s &~ {%s}" % (sq, m))
-    for _ in range(200 if tier == "quick" else 5000):
+    for _ in range(200 if tier == "quick" else 3000):
         k = rng.random()
         if k < 0.6:
             sq, off, ln, attr, val = rng.choice(SEQS)
@@ -131,7 +131,7 @@ def gen_cases(rng, tier):
         for u in USES:
             add("transition", u.replace("%s", b))
     # stream 2: malformed source text
-    n2 = 100 if tier == "quick" else 4000
+    n2 = 100 if tier == "quick" else 700
     for _ in range(n2):
         k = rng.random()
         if k < 0.6:
@@ -153,6 +153,8 @@ MULTI_VALUED = ["({1: 2} | {1: 3})", "(({1: 1} | {1: 2} | {1: 3}) without (@: 1,
 
 def signature(c, o):
     st = o.get("st")
+    if st == "timeout" and "budget exhausted" in (o.get("msg") or ""):
+        return None           # not run: the harness ran out of its overall time, nothing was observed
     if o.get("slow_error_text"):
         return "hang:parse-error-text"
     if st == "panic" and o.get("site") == "rel:(*DictEnumerator).Current":
@@ -169,6 +171,8 @@ def signature(c, o):
             return "crash:out-of-memory"
         return "crash:" + (o.get("msg") or "")[:40]
     if st == "timeout":
+        if o.get("stuck_in") == "parse-error-text":
+            return "hang:parse-error-text"      # the stacks show wbnf's ParseError.Error / walkErrors at work
         return "hang:" + ("malformed-source" if c["stream"] != "illtyped" else "evaluation")
     return None
 
